@@ -301,7 +301,7 @@ func (c *Real32) Erf(a ConstScalar) Scalar {
 }
 func (c *Real32) Erfc(a ConstScalar) Scalar {
   x := a.GetFloat64()
-  v0 := math.Erf(x)
+  v0 := math.Erfc(x)
   f1 := func() float64 {
     return -2.0/(math.Exp(x*x)*special.M_SQRTPI)
   }
